@@ -39,6 +39,7 @@ def gen(rng):
     c = {'vals': [str(v) for v in vals], 'signed': signed, 'given': given, 'shape': 'scalar' if n == 1 and rng.random() < 0.7 else 'array',
          'carrier': rng.choice(['float', 'float', 'int'])}
     if rng.random() < 0.25: c['prelude'] = rng.choice([1, 3, 6])
+    if rng.random() < 0.1: c['prelude_inf'] = True
     if rng.random() < 0.3: c['objarr'] = True
     # NumPy carriers of a narrow dtype (values that the dtype holds exactly)
     if rng.random() < 0.3:
@@ -90,6 +91,13 @@ def run_cases(cases, res):
             _, dw_, df_ = c['carrier'].split(':'); f0_ = nf0 + int(df_); w0_ = 1 + ni0 + f0_ + int(dw_)
             val = fx.Fxp([float(v) for v in vals] if c['shape'] != 'scalar' else float(vals[0]), True, w0_, f0_)
         try:
+            if c.get('prelude_inf'):
+                globals()['_INF_PRELUDE_RAN'] = True
+                # an earlier size inference of the same process that FAILED (an infinite value): nothing of it - NumPy's floating-point error state
+                # included - may survive into the construction under test
+                for bad_ in (float('inf'), [1.0, -np.inf]):
+                    try: fx.Fxp(bad_)
+                    except Exception: pass
             if c.get('prelude'):
                 # an earlier construction of the same values in the same process under a COARSE max_error (it may legitimately stop early):
                 # nothing of it may survive into the construction under test
@@ -98,7 +106,8 @@ def run_cases(cases, res):
             x = fx.Fxp(val, **kw)
             obs = {'fmt': (bool(x.signed), int(x.n_word), int(x.n_frac)), 'n_int': int(x.n_int), 'codes': lib.codes_of(x), 'status': lib.status3(x), 'dtype': x.dtype}
         except Exception as e:
-            res.fail(c, 'C06: size inference raised %s' % lib.exc_name(e), got=str(e)[:200]); continue
+            # (when a failed inference ran earlier in this process it is part of the failing history: the replay runs it first)
+            res.fail(dict(c, prelude_inf=True) if globals().get('_INF_PRELUDE_RAN') else c, 'C06: size inference raised %s' % lib.exc_name(e), got=str(e)[:200]); continue
         pend.append((c, obs, vals, kw, s_eff, nf0, ni0))
         sgn = 2 if c['signed'] is None else (1 if c['signed'] else 0)
         req = [100, sgn, 1 if 'n_word' in kw else 0, kw.get('n_word', 0), 1 if 'n_frac' in kw else 0, kw.get('n_frac', 0), 1 if 'n_int' in kw else 0, kw.get('n_int', 0), 1] + e_list(vals, e_dy)
@@ -254,7 +263,7 @@ def shard(shard, nshards, rng, tier, extra):
             # only a NEGATIVE n_frac given (values that are multiples of 2^-n_frac): the word is the least one holding the codes
             j = rng.randint(1, 12); sg_ = rng.choice([True, None, False])
             vals = [Fraction(rng.randint(0 if sg_ is False else -2 ** rng.randint(1, 20), 2 ** rng.randint(1, 20)) * 2 ** (j + rng.choice([0, 0, 1, 3]))) for _ in range(rng.choice([1, 1, 3]))]
-            cases.append({'vals': [str(t) for t in vals], 'signed': sg_, 'given': 'n_frac', 'n_frac': -j, 'shape': 'scalar' if len(vals) == 1 else 'array', 'carrier': rng.choice(['float', 'int'])})
+            cases.append({'vals': [str(t) for t in vals], 'signed': sg_, 'given': 'n_frac', 'n_frac': -j, 'shape': 'scalar' if len(vals) == 1 else 'array', 'carrier': rng.choice(['float', 'int', 'decimal'])})
     run_cases(cases, res)
     capped(rng, (900 if tier == 'quick' else 6000) // nshards, res)
     run_history([gen_history(rng) for _ in range(2 if tier == 'quick' else 12)], res)
